@@ -234,6 +234,8 @@ class Walker:
             raise Unknown("set expr " + k)
 
     def query(self, q, isolated=True):
+        self.qdepth = getattr(self, "qdepth", 0) + 1
+        outermost = self.qdepth == 1
         w = q.get("with")
         if w:
             self.ev.append(E("With", flag=bool(w.get("recursive"))))
@@ -244,10 +246,14 @@ class Walker:
                 self.ev.append(E("CteEnd", name=nm, cols=[colname(x) for x in c["alias"].get("columns", [])]))
         ob = q.get("order_by")
         order = None
+        dirs = ""
         if ob:
             kind = ob.get("kind")
             if isinstance(kind, dict) and "Expressions" in kind:
                 order = [o["expr"] for o in kind["Expressions"]]
+                # one letter per key: a(scending) / d(escending); the constant key T-SQL needs next to OFFSET..FETCH is no order
+                const = lambda x: isinstance(x, dict) and "Value" in x and "Placeholder" in str(x["Value"])
+                dirs = "".join("d" if (o.get("options") or {}).get("asc") is False else "a" for o in kind["Expressions"] if not const(o["expr"]))
             else:
                 raise Unknown("order by " + str(kind)[:30])
         lc = q.get("limit_clause")
@@ -284,7 +290,10 @@ class Walker:
             if isinstance(tq, dict) and "Constant" in tq:
                 lim = str(tq["Constant"])
         if lim or off:
-            self.ev.append(E("Take", name=lim, q=off if off not in ("0",) else "", n=len(order or [])))
+            self.ev.append(E("Take", name=lim, q=off if off not in ("0",) else "", n=len(order or []), kind=dirs))
+        if outermost:
+            # the order the statement's result is returned in
+            self.ev.append(E("Take", name="final", q="", n=len(order or []), kind=dirs))
         if q.get("fetch"):
             self.feat("fetch")
             if lc is None or (lc.get("LimitOffset", {}).get("offset") is None):
@@ -294,6 +303,7 @@ class Walker:
         self.set_expr(q["body"], order, isolated)
         if w:
             self.ev.append(E("WithEnd"))
+        self.qdepth -= 1
         for k in ("locks", "pipe_operators"):
             if q.get(k):
                 raise Unknown(k)
